@@ -74,6 +74,13 @@ func (vc *VC) modSetOf(spec *FuncSpec, pre *SpecEnv) modSet {
 				continue
 			}
 		case "call":
+			if m.X.K == "id" && m.X.Name == "box" && len(m.Args) == 1 {
+				if tn := pre.typeNameOf(m.Args[0]); tn != nil {
+					ms.get(boxArrName(tn.Type()), ArraySort(SInt, sortOf(tn.Type()))).whole = true
+					continue
+				}
+				pre.fail(m, "box(T): T must be a type name")
+			}
 			if m.X.K == "id" && m.X.Name == "contents" && len(m.Args) == 1 {
 				m = m.Args[0]
 			}
